@@ -596,6 +596,16 @@ def hand_cases():
   leaf2 = _cls("HLeaf", ["s.in_ = InPort( Bits8 )", "s.out = OutPort( Bits8 )", "@update", "def up_l():", "  s.out @= s.in_"])
   mid = _cls("HMid", ["s.in_ = InPort( Bits8 )", "s.l = HLeaf()", "s.l.in_ //= s.in_"])
   C.append(("port-rule:grandparent-loopback", HAND_HEAD + leaf2 + _cls("HMid", ["s.l = HLeaf()"]) + _cls("HandD", ["s.m = HMid()", "s.m.l.in_ //= s.m.l.out"]), "InvalidConnectionError", ()))
+  # ... between two grandchildren, and a child's out port driven by its parent from the child's own in port / wire
+  leaf3 = _cls("HLeaf", ["s.in_ = InPort( Bits8 )", "s.out = OutPort( Bits8 )", "s.w = Wire( Bits8 )", "@update", "def up_l():", "  s.w @= s.in_"])
+  mid2 = _cls("HMid", ["s.in_ = InPort( Bits8 )", "s.b1 = HLeaf()", "s.b2 = HLeaf()", "s.b1.in_ //= s.in_"])
+  leaf2o = _cls("HLeaf", ["s.in_ = InPort( Bits8 )", "s.out = OutPort( Bits8 )", "@update", "def up_l():", "  s.out @= s.in_"])
+  C.append(("port-rule:grandparent-connects-two-grandchildren", HAND_HEAD + leaf2o + mid2 + _cls("HandD", ["s.in_ = InPort( Bits8 )", "s.a = HMid()", "s.a.in_ //= s.in_", "s.a.b2.in_ //= s.a.b1.out"]),
+            "InvalidConnectionError", ()))
+  C.append(("port-rule:parent-drives-child-out-from-child-in", HAND_HEAD + _cls("HLeaf", ["s.in_ = InPort( Bits8 )", "s.out = OutPort( Bits8 )"]) +
+            _cls("HandD", ["s.in_ = InPort( Bits8 )", "s.a = HLeaf()", "s.a.in_ //= s.in_", "s.a.out //= s.a.in_"]), "SignalTypeError", ()))
+  C.append(("port-rule:parent-drives-child-wire", HAND_HEAD + _cls("HLeaf", ["s.in_ = InPort( Bits8 )", "s.w = Wire( Bits8 )"]) +
+            _cls("HandD", ["s.in_ = InPort( Bits8 )", "s.a = HLeaf()", "s.a.in_ //= s.in_", "s.a.w //= s.a.in_"]), "SignalTypeError", ()))
   # partly driven net sources
   add("partial-driver:disjoint-slice(control)", ["s.in_ = InPort( Bits4 )", "s.y = Wire( Bits8 )", "s.out = OutPort( Bits4 )", "s.y[0:4] //= s.in_", "s.out //= s.y[4:8]"], "NoWriterError")
   add("partial-driver:overlapping-slice", ["s.in_ = InPort( Bits4 )", "s.y = Wire( Bits8 )", "s.out = OutPort( Bits4 )", "s.y[0:4] //= s.in_", "s.out //= s.y[2:6]"], "NoWriterError")
